@@ -51,6 +51,18 @@ theorem exec_memset (d : Nat) (t : Ty) (v n : Expr) (f : Nat) (σ : State) :
     exec Γ (.memset d t v n) f σ = (eval Γ σ v).bind fun vv => (eval Γ σ n).bind fun nv =>
       (memsetCells σ.mem (Γ.getD d none) t vv nv).bind fun m => .ok (.norm, { σ with mem := m }) := rfl
 
+/-- the loop part of a `for` statement, as an opaque constant for `simp` (so that the symbolic execution of the
+    `init` part does not descend into the loop body under its binders); unfold it with `forLoop_def`. -/
+def forLoop (Γ : List Ptr) (c : Expr) (inc b : Stmt) (f : Nat) (σ1 : State) : Out :=
+  loopN (evalB Γ c) (fun f σ => thenStep (exec Γ b f σ) fun σ' => exec Γ inc f σ') f σ1
+
+theorem forLoop_def (Γ : List Ptr) (c : Expr) (inc b : Stmt) (f : Nat) (σ1 : State) :
+    forLoop Γ c inc b f σ1 =
+      loopN (evalB Γ c) (fun f σ => thenStep (exec Γ b f σ) fun σ' => exec Γ inc f σ') f σ1 := rfl
+
+theorem exec_for_eq (i : Stmt) (c : Expr) (inc b : Stmt) (f : Nat) (σ : State) :
+    exec Γ (.for i c inc b) f σ = seqK (exec Γ i f σ) (forLoop Γ c inc b f) := rfl
+
 /-- sequencing when the first statement completes normally -/
 theorem exec_seq_of_norm {a b : Stmt} {f : Nat} {σ σ' : State} (h : exec Γ a f σ = .ok (.norm, σ')) :
     exec Γ (.seq a b) f σ = exec Γ b f σ' := by
@@ -184,5 +196,38 @@ theorem loopN_fuel_tight (c : State → R Bool) (step : Nat → State → Out) (
     intro j hj
     simp only [loopN, hc j (by omega), hs j (by omega) f]
     exact ih (j + 1) (by omega)
+
+/-! ### call / pointer expressions -/
+theorem callRet_eq (σ : State) (x : Out) :
+    callRet σ x = (memOf x).bind fun m => .ok (.norm, { σ with mem := m }) := by
+  cases x with
+  | err e => rfl
+  | ok r => obtain ⟨fl, σ'⟩ := r; rfl
+
+/-- a call of a translated function is `run` on the caller's memory -/
+theorem exec_call_run (Γ : List Ptr) (fn : Fn) (sargs : List Expr) (pargs : List (PBase × Expr)) (f : Nat)
+    (σ : State) :
+    exec Γ (.call fn.body fn.nslots sargs pargs) f σ = (evalList Γ σ sargs).bind fun vs =>
+      (evalPtrs Γ σ pargs).bind fun ps =>
+        (run f fn vs ps σ.mem).bind fun m => .ok (.norm, { σ with mem := m }) := by
+  show (evalList Γ σ sargs).bind (fun vs => (evalPtrs Γ σ pargs).bind fun ps =>
+      callRet σ (exec ps fn.body f { env := vs ++ List.replicate (fn.nslots - vs.length) 0, mem := σ.mem })) = _
+  simp only [callRet_eq]
+  rfl
+
+theorem evalList_nil (Γ : List Ptr) (σ : State) : evalList Γ σ [] = .ok [] := rfl
+theorem evalList_cons (Γ : List Ptr) (σ : State) (e : Expr) (es : List Expr) :
+    evalList Γ σ (e :: es) = (eval Γ σ e).bind fun v => (evalList Γ σ es).bind fun vs => .ok (v :: vs) := rfl
+theorem evalPtrs_nil (Γ : List Ptr) (σ : State) : evalPtrs Γ σ [] = .ok [] := rfl
+theorem evalPtrs_cons (Γ : List Ptr) (σ : State) (b : PBase) (o : Expr) (ps : List (PBase × Expr)) :
+    evalPtrs Γ σ ((b, o) :: ps) = (eval Γ σ o).bind fun v => (ptrAt Γ σ.env b v).bind fun p =>
+      (evalPtrs Γ σ ps).bind fun qs => .ok (p :: qs) := rfl
+theorem exec_passign (Γ : List Ptr) (s : Nat) (b : PBase) (o : Expr) (f : Nat) (σ : State) :
+    exec Γ (.passign s b o) f σ = (eval Γ σ o).bind fun v => (ptrAt Γ σ.env b v).bind fun p =>
+      .ok (.norm, { σ with env := encPtr σ.env s p }) := rfl
+theorem eval_ptrEq (Γ : List Ptr) (σ : State) (b1 b2 : PBase) (o1 o2 : Expr) :
+    eval Γ σ (.ptrEq b1 o1 b2 o2) = (eval Γ σ o1).bind fun v1 => (eval Γ σ o2).bind fun v2 =>
+      (ptrAt Γ σ.env b1 v1).bind fun p1 => (ptrAt Γ σ.env b2 v2).bind fun p2 => .ok (b2i (p1 = p2)) := rfl
+
 
 end Spq.CIR
